@@ -247,7 +247,7 @@ type XGen struct {
 
 var xmlNames = []string{"a", "b", "c", "item", "k", "A", "Item", "a-b", "x_y", "list", "n1", "a.b", "a-b-c", "X-y-Z"}
 var xmlAttrNames = []string{"id", "x", "a", "Type", "data-v", "k", "lang", "data-v-2", "ID"}
-var xmlTexts = []string{"hello", "x<y", "R&D", "\"q\"", "it's", "]]>", "&amp;", "&#x41;", "a b", " pad ", "1", "3.5", "true", "<![CDATA[", "é", "日本", "&", "<", ">", "-5", "tRuE", "NaN", "1e3", "0x1F", "\ttab", "a&b<c>d\"e'f", "x]]", "&lt;tag&gt;", "00", "T", "f", "1e19", "18446744073709551616", "-3e25", "1000000", "1e6", "9007199254740993", "0.1", "1e-7", "a  b", "l1\nl2", "x \t y", "+12.5", "+3", "C:\\tmp\\", "a\\b"}
+var xmlTexts = []string{"hello", "x<y", "R&D", "\"q\"", "it's", "]]>", "&amp;", "&#x41;", "a b", " pad ", "1", "3.5", "true", "<![CDATA[", "é", "日本", "&", "<", ">", "-5", "tRuE", "NaN", "1e3", "0x1F", "\ttab", "a&b<c>d\"e'f", "x]]", "&lt;tag&gt;", "00", "T", "f", "1e19", "18446744073709551616", "-3e25", "1000000", "1e6", "9007199254740993", "0.1", "1e-7", "a  b", "l1\nl2", "x \t y", "+12.5", "+3", "C:\\tmp\\", "a\\b", "100%", "%d%s", "12345678901234567", "1234567.8901234567", "-12345678901234567", "1.2345678901234567e-5"}
 
 func (r *Rng) xmlNode(g *XGen, depth int) *XNode {
 	n := &XNode{Kind: 'N', Name: r.Pick(g.Names)}
@@ -304,11 +304,11 @@ func (r *Rng) xmlNode(g *XGen, depth int) *XNode {
 						used[k] = true
 						switch k {
 						case 'C':
-							n.Kids = append(n.Kids, &XNode{Kind: 'C', Text: r.Pick([]string{" note ", "x", "a-b", "2024", "true", "1.5", " 7 "})})
+							n.Kids = append(n.Kids, &XNode{Kind: 'C', Text: r.Pick([]string{" note ", "x", "a-b", "2024", "true", "1.5", " 7 ", " 100% done ", "%s %d"})})
 						case 'P':
-							n.Kids = append(n.Kids, &XNode{Kind: 'P', Target: r.Pick([]string{"pi", "target"}), Text: r.Pick([]string{"a=1", "do it", "42", "false"})})
+							n.Kids = append(n.Kids, &XNode{Kind: 'P', Target: r.Pick([]string{"pi", "target"}), Text: r.Pick([]string{"a=1", "do it", "42", "false", "href=\"my%20style.xsl\""})})
 						default:
-							n.Kids = append(n.Kids, &XNode{Kind: 'D', Text: r.Pick([]string{"DOCTYPE x", "ELEMENT a", "12", "true"})})
+							n.Kids = append(n.Kids, &XNode{Kind: 'D', Text: r.Pick([]string{"DOCTYPE x", "ELEMENT a", "12", "true", "ENTITY % pe \"x\""})})
 						}
 						continue
 					}
@@ -339,11 +339,11 @@ func (r *Rng) xmlNode(g *XGen, depth int) *XNode {
 			if g.Comments && r.P(12) {
 				switch r.Intn(3) {
 				case 0:
-					n.Kids = append(n.Kids, &XNode{Kind: 'C', Text: r.Pick([]string{" note ", "x", "a-b", "", "2024", "true", "1.5", " 7 "})})
+					n.Kids = append(n.Kids, &XNode{Kind: 'C', Text: r.Pick([]string{" note ", "x", "a-b", "", "2024", "true", "1.5", " 7 ", " 100% done ", "%s %d"})})
 				case 1:
-					n.Kids = append(n.Kids, &XNode{Kind: 'P', Target: r.Pick([]string{"pi", "target"}), Text: r.Pick([]string{"", "a=1", "do it", "42", "false"})})
+					n.Kids = append(n.Kids, &XNode{Kind: 'P', Target: r.Pick([]string{"pi", "target"}), Text: r.Pick([]string{"", "a=1", "do it", "42", "false", "href=\"my%20style.xsl\""})})
 				default:
-					n.Kids = append(n.Kids, &XNode{Kind: 'D', Text: r.Pick([]string{"DOCTYPE x", "ELEMENT a", "12", "true"})})
+					n.Kids = append(n.Kids, &XNode{Kind: 'D', Text: r.Pick([]string{"DOCTYPE x", "ELEMENT a", "12", "true", "ENTITY % pe \"x\""})})
 				}
 				lastWasText = false
 				continue
